@@ -554,9 +554,10 @@ pub fn field_fault(img: &mut Img, kind: usize) -> &'static str {
     FIELD_FAULTS[kind]
 }
 
-pub const COORDINATED_FAULTS: [&str; 9] = [
+pub const COORDINATED_FAULTS: [&str; 11] = [
     "meta_append_zeros", "remainder_prepend_zeros", "remainder_append_zeros", "fri_extra_layer", "fri_drop_layer",
     "merkle_extra_node", "merkle_extra_vector", "queries_extra_row", "commitments_extra_digest",
+    "one_more_unique_query_everywhere", "one_fewer_unique_query_everywhere",
 ];
 
 /// a coordinated multi-site edit: content changed AND every length that describes it re-synchronised,
@@ -615,13 +616,33 @@ pub fn coordinated_fault(img: &mut Img, kind: usize, element_bytes: usize) -> &'
             let add = [element_bytes, 2 * element_bytes, q.values.len().min(64)][rows];
             q.values.extend(std::iter::repeat(0u8).take(add));
         },
-        _ => {
+        8 => {
             let ds = img.digest_size;
             if img.commitments.len() + ds <= 65535 {
                 let d: Vec<u8> = img.commitments[img.commitments.len().saturating_sub(ds)..].to_vec();
                 img.commitments.extend_from_slice(&d);
             }
         },
+        9 | 10 => {
+            // the unique-query count and every query table change together: one more (a copy of
+            // the last row) or one fewer row in the main, auxiliary and constraint tables
+            let n = img.num_unique_queries as usize;
+            if n == 0 || (kind == 9 && n == 255) || (kind == 10 && n == 1) {
+                return COORDINATED_FAULTS[kind];
+            }
+            for q in img.trace_queries.iter_mut().chain(std::iter::once(&mut img.constraint_queries)) {
+                let row = q.values.len() / n;
+                if kind == 9 {
+                    let last: Vec<u8> = q.values[q.values.len() - row..].to_vec();
+                    q.values.extend_from_slice(&last);
+                } else {
+                    let keep = q.values.len() - row;
+                    q.values.truncate(keep);
+                }
+            }
+            img.num_unique_queries = if kind == 9 { (n + 1) as u8 } else { (n - 1) as u8 };
+        },
+        _ => {},
     }
     img.fix_lengths();
     COORDINATED_FAULTS[kind]
